@@ -89,12 +89,12 @@ def handle (toks : List String) : String :=
     | some k, some n =>
       -- priv: bit 0 = privileged, bit 1 = seccomp(2) answers ENOSYS (an outer filter denies it / old kernel),
       --       bit 2 = prctl(PR_SET_NO_NEW_PRIVS) answers EINVAL,
-      --       bits 3–5 = the errno of bit 1's refusal: 0 ENOSYS, 1 EPERM, 2 EACCES, 3 ENOMEM, 4 EAGAIN, 5 ESRCH, 6 EBUSY
+      --       bits 3–5 = the errno of bit 1's refusal: 0 ENOSYS, 1 EPERM, 2 EACCES, 3 ENOMEM, 4 EAGAIN, 5 ESRCH, 6 EBUSY, 7 EINTR
       let pv := priv.toNat?.getD 0
       let w : World := { thr := fun _ => {}, live := List.range (k + 2), cur := 0, privileged := pv % 2 == 1,
                          seccompAvailable := pv / 2 % 2 == 0, nnpAvailable := pv / 4 % 2 == 0,
                          refusal := match pv / 8 % 8 with
-                           | 1 => .eperm | 2 => .eacces | 3 => .enomem | 4 => .eagain | 5 => .esrch | 6 => .ebusy | _ => .enosys }
+                           | 1 => .eperm | 2 => .eacces | 3 => .enomem | 4 => .eagain | 5 => .esrch | 6 => .ebusy | 7 => .eintr | _ => .enosys }
       match ops k n rest { w := w, next := 100, out := [] } with
       | some st => " | ".intercalate st.out
       | none => "BAD-REQUEST"
